@@ -82,8 +82,12 @@ def _compile_one(cxx, src, obj, flags):
     os.replace(tmp, obj)
 
 
+INSTR_FLAGS = ["-finstrument-functions",
+               "-finstrument-functions-exclude-function-list=addroundkey,subbytes,rowshift,columnmix,commonround,specround,get_key,genkey,genall,keyhandle,getXor,Aesmode,AesEncrypt,AesDecrypt,AesFactory,aeshandle"]
+
+
 def build_exe(name, harness_srcs, defs=(), sanitize="address", opt="-O1", repo_sources=None, libs=(), cxx="g++",
-              extra_flags=(), with_sched=True, main_cpp=False):
+              extra_flags=(), with_sched=True, main_cpp=False, instrument_sources=()):
     """Compile the repo sources (from the current working tree, hooks on) plus the harness into
     build/exe/<key>/<name>. Objects are cached by (repo fingerprint, flags)."""
     fp = repo_fingerprint()
@@ -105,9 +109,10 @@ def build_exe(name, harness_srcs, defs=(), sanitize="address", opt="-O1", repo_s
     jobs = []
     objs = []
     for s in srcs:
-        o = os.path.join(objdir, s.replace("/", "_") + ".o")
+        ins = s in instrument_sources  # function-entry/exit callbacks (scheduling points inside code that has no source hooks)
+        o = os.path.join(objdir, s.replace("/", "_") + (".instr.o" if ins else ".o"))
         objs.append(o)
-        jobs.append((cxx, os.path.join(REPO, s), o, flags + inc))
+        jobs.append((cxx, os.path.join(REPO, s), o, flags + inc + (INSTR_FLAGS if ins else [])))
     hdeps = [os.path.join(VERIF, "harness", f) for f in sorted(os.listdir(os.path.join(VERIF, "harness")))]
     hdeps += [os.path.join(VERIF, "sched", f) for f in sorted(os.listdir(os.path.join(VERIF, "sched")))]
     hdeps += [os.path.join(VERIF, "ref", f) for f in sorted(os.listdir(os.path.join(VERIF, "ref")))]
@@ -128,7 +133,7 @@ def build_exe(name, harness_srcs, defs=(), sanitize="address", opt="-O1", repo_s
         futs = [ex.submit(_compile_one, *j) for j in jobs]
         for f in futs:
             f.result()
-    exedir = os.path.join(BUILD, "exe", fp[:16] + "-" + fkey + "-" + hkey)
+    exedir = os.path.join(BUILD, "exe", fp[:16] + "-" + fkey + "-" + hkey + ("-instr" if instrument_sources else ""))
     os.makedirs(exedir, exist_ok=True)
     exe = os.path.join(exedir, name)
     if not os.path.exists(exe):
